@@ -91,13 +91,13 @@ Plan gen_plan(uint64_t runseed) {
     return p;
 }
 
-struct Shared { const Plan *plan; void *pool; std::vector<std::vector<uint64_t>> digests; uint64_t faults_planned = 0, faults_fired = 0; };
+struct Shared { const Plan *plan; void *pool; std::vector<void *> privs; std::vector<std::vector<uint64_t>> digests; uint64_t faults_planned = 0, faults_fired = 0; };
 
 static void thread_body(int tid, void *arg) {
     Shared &S = *static_cast<Shared *>(arg);
     const std::vector<BOp> &prog = S.plan->programs[(size_t)tid - 1];
     simrt::SutScope sut;
-    void *priv = priv_new();
+    void *priv = S.privs[(size_t)tid - 1];
     for (size_t i = 0; i < prog.size(); i++) {
         rt_op_begin((int)i, prog[i].kind, step_budget_for(prog[i]));
         simrt::heap_op_begin(prog[i].fault);
@@ -130,6 +130,7 @@ RunResult run_plan(const Plan &p, Totals *tot) {
     if (!p.switches.empty()) { sp.mode = 1; sp.list = p.switches.data(); sp.nlist = p.switches.size(); }
     else if (p.victim) { sp.victim = (int)p.victim; sp.victim_op = (int)p.victim_op; sp.runner = (int)p.runner; sp.offset = p.offset; }
     simrt::fatal_context("prop=C20 i=%llu runseed=%llu site=concurrent_phase", (unsigned long long)g_index, (unsigned long long)p.seed);
+    { simrt::SutScope sut; for (size_t t = 0; t < n; t++) S.privs.push_back(priv_new(S.pool)); }
     rt_begin_run((int)n, sp);
     rt_run_threads(thread_body, &S);
     RaceReport race; std::vector<Switch> rec(4096); size_t nrec = 0;
@@ -149,7 +150,7 @@ RunResult run_plan(const Plan &p, Totals *tot) {
     }
     for (size_t t = 0; t < n; t++) {
         simrt::SutScope sut;
-        void *priv = priv_new();
+        void *priv = priv_new(S.pool);
         for (size_t i = 0; i < p.programs[t].size(); i++) {
             simrt::heap_op_begin(p.programs[t][i].fault);
             uint64_t d = do_op(S.pool, priv, p.programs[t][i]);
